@@ -163,6 +163,10 @@ func run(c *vf.Ctx) {
 		}(i)
 	}
 	wg.Wait()
+	if c.ReplayFile != "" {
+		c.Require(1, 1)
+		return
+	}
 	c.Require(int64(nHist*2/3), nHist/2)
 	if c.Counter("config_observations") < int64(nHist)*200 || c.Counter("join_acks_checked") < int64(nHist) || c.Counter("reaps_judged") == 0 {
 		c.Inconclusive("monitor observed too little")
